@@ -9,14 +9,18 @@ Ltac zcase a b := destruct (Z.eqb_spec a b); subst.
 
 Lemma raw_set_bounds_Inv s r l u : Inv s -> Inv (raw_set_bounds r l u s).
 Proof.
-  intros [A B C D E G H I J K]. unfold raw_set_bounds, update_variable_bounds. cbn [rin set_lbub].
+  intros [A B B' C D E G H I J K]. unfold raw_set_bounds, update_variable_bounds. cbn [rin set_lbub].
   destruct (rin s r) eqn:Er.
   - cbn [lb ub set_lbub]. rewrite !upd_same.
     destruct (split_bounds l u) as [[fl fu] [rl ru]] eqn:Es.
     constructor; cbn; try assumption.
-    intros r0 H0. names. zcase r0 r.
-    + unfold upd. rewrite Z.eqb_refl. rewrite Es. reflexivity.
-    + rewrite !upd_other by assumption. apply B. exact H0.
+    + intros r0 H0. names. zcase r0 r.
+      * unfold upd. rewrite Z.eqb_refl. rewrite Es. reflexivity.
+      * rewrite !upd_other by assumption. apply B. exact H0.
+    + intros n Hn. unfold updn.
+      destruct (name_eqb n (R r)) eqn:E1; [apply name_eqb_true in E1; subst; destruct (A r); congruence|].
+      destruct (name_eqb n (F r)) eqn:E2; [apply name_eqb_true in E2; subst; destruct (A r); congruence|].
+      apply B'. exact Hn.
   - constructor; cbn; try assumption.
     intros r0 H0. zcase r0 r; [congruence|]. rewrite !upd_other by assumption. apply B. exact H0.
 Qed.
@@ -47,7 +51,7 @@ Proof.
 Qed.
 
 Lemma set_odir_Inv s d : Inv s -> Inv (set_odir s d).
-Proof. intros [A B C D E G H I J K]. constructor; cbn; assumption. Qed.
+Proof. intros [A B B' C D E G H I J K]. constructor; cbn; assumption. Qed.
 Lemma set_dir_Inv s d : Inv s -> Inv (set_dir d s).
 Proof.
   intros HI. unfold set_dir. destruct (in_ctx s && Bool.eqb (odir s) d); [exact HI|].
@@ -59,7 +63,7 @@ Proof. apply Qc_is_canon. reflexivity. Qed.
 
 Lemma set_oc_zero_Inv s : Inv s -> Inv (set_oc s (fun _ => q0)).
 Proof.
-  intros [A B C D E G H I J K]. constructor; cbn; try assumption.
+  intros [A B B' C D E G H I J K]. constructor; cbn; try assumption.
   intros r. split; [symmetry; apply opp_q0|reflexivity].
 Qed.
 
@@ -67,7 +71,7 @@ Lemma set_obj_loop_Inv l : forall s, Inv s -> Inv (fst (set_obj_loop l s)).
 Proof.
   induction l as [|[r c] l IH]; intros s HI; cbn [set_obj_loop]; [exact HI|].
   destruct (rin s r) eqn:Er; [|exact HI].
-  apply IH. destruct HI as [A B C D E G H I J K]. constructor; cbn; try assumption.
+  apply IH. destruct HI as [A B B' C D E G H I J K]. constructor; cbn; try assumption.
   intros r0. names. destruct (Z.eqb_spec r0 r) as [->|Hne].
   - split; [reflexivity|congruence].
   - apply E.
@@ -201,7 +205,7 @@ Proof.
   apply H4. clear H4 cnd.
   assert (NU : forall m, memz m (touched l) = false -> new m = sto s r m)
     by (intros; apply st_after_untouched; assumption).
-  destruct HI as [A B C D E G H I J K].
+  destruct HI as [A B B' C D E G H I J K].
   destruct (rin s r) eqn:Er.
   - conts. unfold model_add_mets. recs. cbn. recs. cbn.
     unfold content, set_ctx, set_back, set_co, set_cin, set_min, set_sto. cbn. recs. cbn.
@@ -210,6 +214,7 @@ Proof.
     constructor; cbn.
     + exact A.
     + exact B.
+    + exact B'.
     + intros m. rewrite C. reflexivity.
     + intros m r0. rewrite C. names.
       destruct (Z.eqb_spec r0 r) as [E0|Hne]; [subst r0|].
@@ -301,7 +306,7 @@ Lemma new_rxn_Inv s r l u st0 :
   Inv s -> (forall m, In m (map fst st0) -> In m (mids s)) -> Inv (fst (step s (NewRxn r l u st0))).
 Proof.
   intros HI Hm. cbn [step]. destruct (rin s r) eqn:Er0; [exact HI|]. cbn [fst].
-  destruct HI as [A B C D E G H I J K].
+  destruct HI as [A B B' C D E G H I J K].
   expl. constructor; cbn; try assumption.
   - intros r0 Hr0. assert (r0 <> r) by congruence. rewrite !upd_other by assumption. apply B. exact Hr0.
   - intros m r0. destruct (Z.eqb_spec r0 r) as [E0|Hne]; [subst r0|].
@@ -321,7 +326,7 @@ Proof.
   conts. unfold add_rxn_content.
   destruct (split_bounds (lb s r) (ub s r)) as [[fl fu] [rl ru]] eqn:Es.
   unfold content, set_ctx. cbn.
-  destruct HI as [A B C D E G H I J K].
+  destruct HI as [A B B' C D E G H I J K].
   assert (Hback : forall m, back s m r = false).
   { intros m. destruct (back s m r) eqn:Eb; [|reflexivity]. destruct (H m r Eb) as [_ [X _]]. congruence. }
   constructor; cbn.
@@ -329,6 +334,8 @@ Proof.
     rewrite upd_other by exact Hne. apply A.
   - intros r0 Hr0. names. destruct (Z.eqb_spec r0 r) as [E0|Hne]; [subst r0; rewrite Es; reflexivity|].
     rewrite upd_other in Hr0 by exact Hne. apply B. exact Hr0.
+  - intros n Hn. destruct n as [rn bn]. cbn [fst] in Hn. unfold name_eqb, F, R. cbn [fst snd].
+    destruct (Z.eqb_spec rn r) as [E0|Hne]; [discriminate|]. cbn [andb]. apply B'. exact Hn.
   - intros m. rewrite C. reflexivity.
   - intros m r0. names. destruct (Z.eqb_spec r0 r) as [E0|Hne]; [subst r0|].
     + rewrite upd_same. cbn [andb]. destruct (D m r) as [D1 D2]. rewrite Er in D1, D2. cbn [andb] in D1, D2.
@@ -372,7 +379,7 @@ Proof.
   intros H0. cbn [step]. set (s0 := s) in *. clearbody s0.
   destruct (min s0 m) eqn:Em; [exact H0|]. cbn [fst].
   conts. unfold model_add_mets. expl.
-  destruct H0 as [A B C D E G H I J K].
+  destruct H0 as [A B B' C D E G H I J K].
   assert (Hz : forall r, rin s0 r = true -> sto s0 r m = q0).
   { intros r Hr. destruct (isz (sto s0 r m)) eqn:Ez; [apply isz_true; exact Ez|].
     apply isz_false in Ez. destruct (G r m Hr Ez). congruence. }
@@ -395,7 +402,7 @@ Lemma remove_met_nd_Inv s m : Inv s -> Inv (remove_met_nd m s).
 Proof.
   intros HI. unfold remove_met_nd. destruct (min s m) eqn:Em; cbn [negb]; [|exact HI].
   conts. unfold remove_met_nd_content, content, set_ctx. cbn.
-  destruct HI as [A B C D E G H I J K].
+  destruct HI as [A B B' C D E G H I J K].
   constructor; cbn; try assumption.
   - intros m0. unfold upd. destruct (m0 =? m); [reflexivity|apply C].
   - intros m0 r. destruct (Z.eqb_spec m0 m) as [E0|Hne]; [subst m0|].
@@ -424,7 +431,7 @@ Lemma remove_rxn_Inv s r o : Inv s -> Inv (remove_rxn r o s).
 Proof.
   intros HI. unfold remove_rxn. destruct (rin s r) eqn:Er; cbn [negb]; [|exact HI].
   conts. unfold remove_rxn_content, content, set_ctx. cbn.
-  destruct HI as [A B C D E G H I J K].
+  destruct HI as [A B B' C D E G H I J K].
   set (gone := fun m => o && orphaned s r m).
   assert (Hg : forall m r', gone m = true -> back s m r' = true -> r' = r).
   { intros m r' Hgm Hb. unfold gone in Hgm. apply andb_true_iff in Hgm as [_ Ho].
@@ -433,7 +440,9 @@ Proof.
   - intros r0. destruct (Z.eqb_spec r0 r) as [E0|Hne]; [subst r0; rewrite upd_same; tauto|].
     rewrite upd_other by exact Hne. apply A.
   - intros r0 Hr0. destruct (Z.eqb_spec r0 r) as [E0|Hne]; [subst r0; rewrite upd_same in Hr0; discriminate|].
+    cbn [fst F R]. destruct (Z.eqb_spec r0 r); [contradiction|].
     rewrite upd_other in Hr0 by exact Hne. apply B. exact Hr0.
+  - intros n Hn. destruct (fst n =? r); [tauto|apply B'; exact Hn].
   - intros m. rewrite C. reflexivity.
   - intros m r0. destruct (Z.eqb_spec r0 r) as [E0|Hne]; [subst r0; rewrite upd_same; cbn; tauto|].
     rewrite upd_other by exact Hne. cbn [orb]. fold (gone m).
@@ -461,11 +470,14 @@ Lemma remove_met_d_Inv s m : Inv s -> Inv (remove_met_d m s).
 Proof.
   intros HI. unfold remove_met_d. destruct (min s m) eqn:Em; cbn [negb]; [|exact HI].
   conts. unfold remove_met_d_content, content, set_ctx. cbn.
-  destruct HI as [A B C D E G H I J K].
+  destruct HI as [A B B' C D E G H I J K].
   set (dead := fun r => back s m r && rin s r).
   constructor; cbn.
   - intros r0. destruct (A r0) as [A1 A2]. rewrite A1, A2. tauto.
-  - intros r0 Hr0. apply andb_true_iff in Hr0 as [Hr0 _]. apply B. exact Hr0.
+  - intros r0 Hr0. apply andb_true_iff in Hr0 as [Hr0 Hd]. apply negb_true_iff in Hd. cbn [fst F R].
+    rewrite Hd. apply B. exact Hr0.
+  - intros n Hn. destruct (back s m (fst n) && rin s (fst n)) eqn:Ed; [split; reflexivity|]. apply B'.
+    cbn [negb] in Hn. rewrite andb_true_r in Hn. exact Hn.
   - intros m0. unfold upd. destruct (m0 =? m); [reflexivity|apply C].
   - intros m0 r0. fold (dead r0). destruct (Z.eqb_spec m0 m) as [E0|Hne]; [subst m0|].
     + rewrite upd_same. cbn [orb]. rewrite andb_false_r. tauto.
@@ -512,7 +524,7 @@ Proof.
   { intros m. destruct (isz (sto x r m)) eqn:E.
     - apply isz_true. apply Hz. apply isz_true. exact E.
     - apply isz_false. intros H. apply Hz in H. apply isz_false in E. contradiction. }
-  destruct HI as [A B C D E G H I J K].
+  destruct HI as [A B B' C D E G H I J K].
   destruct (rin x r) eqn:Er.
   - unfold populate, update_variable_bounds. cbn [rin set_sto]. rewrite Er. cbn [lb ub set_sto].
     destruct (split_bounds (lb x r) (ub x r)) as [[fl fu] [rl ru]] eqn:Es.
@@ -520,6 +532,10 @@ Proof.
     constructor; cbn; try assumption.
     + intros r0 Hr0. names. destruct (Z.eqb_spec r0 r) as [E0|Hne]; [subst r0; rewrite Es; reflexivity|].
       apply B. exact Hr0.
+    + intros n Hn. unfold updn.
+      destruct (name_eqb n (R r)) eqn:E1; [apply name_eqb_true in E1; subst; destruct (A r); congruence|].
+      destruct (name_eqb n (F r)) eqn:E2; [apply name_eqb_true in E2; subst; destruct (A r); congruence|].
+      apply B'. exact Hn.
     + intros m r0. names. destruct (Z.eqb_spec r0 r) as [E0|Hne]; [subst r0|].
       * rewrite upd_same, Er. cbn [andb]. rewrite Hiz.
         destruct (D m r) as [D1 D2]. rewrite Er in D1, D2. cbn [andb] in D1, D2.
